@@ -666,8 +666,8 @@ func craftedCases(r *ev.Run) []*caseT {
 				if len(kvs) > maxSize {
 					continue
 				}
-				if pose && (r.Quick() && len(kvs) > 2) {
-					continue
+				if pose && len(kvs) > ev.Pick(r, 2, 3) {
+					continue // Poseidon on the crafted sets: <=2 keys quick, <=3 keys thorough
 				}
 				out = append(out, &caseT{label: "h=251/crafted", desc: kvDesc(kvs), im: im, pose: pose, height: 251, kvs: kvs,
 					queries: qs, flips: flips, juno: true, corrupt: im.name != "trie2-mem" && (r.Thorough() || len(kvs) <= 3)})
